@@ -138,7 +138,7 @@ fn worker(id: &'static str, tier: Tier, seed: u64, replay: Option<String>, shard
                 println!("HARNESS-ERROR cannot read replay file {file}: {e}");
                 std::process::exit(2)
             });
-            let j: serde_json::Value = serde_json::from_str(&text).unwrap_or_else(|e| {
+            let j: serde_json::Value = engine::from_json_unbounded(text.as_bytes()).unwrap_or_else(|e| {
                 println!("HARNESS-ERROR replay file {file} is not JSON: {e}");
                 std::process::exit(2)
             });
